@@ -358,6 +358,7 @@ func init() {
 				add("always-k2-rot", merge(base, p("k", 2, "ops", opPut|opDelete, "sync", syncAlways, "dfs_lo", 60, "dfs_hi", 100)))
 				add("threshold-k3", merge(base, p("k", 3, "ops", opPut|opDelete, "sync", syncThreshold, "vlens", 1)))
 				add("batch-k1", merge(base, p("k", 1, "ops", opBatch, "vlens", 1)))
+				add("always-batch-rot-k3", merge(base, p("k", 3, "ops", opPut|opBatch, "bmax", 1, "vlens", 1, "sync", syncAlways, "dfs_lo", 130, "dfs_hi", 160)))
 				add("mmap-process-death-k2", merge(base, p("k", 2, "ops", opPut|opDelete, "io", 1, "powerloss", 0, "after", 1, "dfs_lo", 60, "dfs_hi", 100)))
 			} else {
 				add("mmap-process-death-k3", merge(base, p("k", 3, "ops", opPut|opDelete|opBatch, "io", 1, "powerloss", 0, "after", 1, "dfs_lo", 60, "dfs_hi", 100)))
@@ -402,11 +403,12 @@ func init() {
 				add("overflow-bmax2-powerloss", merge(base, p("k", 1, "ops", opBatch, "bmax", 2, "dfs_lo", 110, "dfs_hi", 150, "after", 1)))
 				add("sync-batch", merge(base, p("k", 1, "ops", opBatch, "bmax", 2, "bsync", 1)))
 				add("batch-then-put", merge(base, p("k", 2, "ops", opBatch|opPut, "bmax", 1, "after", 1)))
+				add("interrupted-batch-then-batch", merge(base, p("k", 1, "ops", opBatch, "bmax", 2, "after", 1, "afterbatch", 1, "powerloss", 0)))
 				add("batch-merge-restart", merge(base, p("k", 1, "ops", opBatch, "bmax", 2, "tailops", opMerge|opRestart, "after", 1, "powerloss", 0)))
 			} else {
 				add("overflow-bmax3-pre2", merge(base, p("preput", 2, "k", 1, "ops", opBatch, "bmax", 3, "dfs_lo", 100, "dfs_hi", 220, "after", 1, "vlens", 2)))
 				add("sync-batch-bmax3", merge(base, p("preput", 1, "k", 1, "ops", opBatch, "bmax", 3, "bsync", 1, "dfs_lo", 100, "dfs_hi", 200)))
-				add("two-batches", merge(base, p("k", 2, "ops", opBatch, "bmax", 2, "after", 1)))
+				add("two-batches", merge(base, p("k", 2, "ops", opBatch, "bmax", 2, "after", 1, "afterbatch", 1)))
 				add("batch-put-merge-restart", merge(base, p("k", 2, "ops", opBatch|opPut, "bmax", 2, "tailops", opMerge|opRestart, "after", 1, "powerloss", 0, "crash2", 1)))
 				add("btree-overflow", merge(base, p("preput", 1, "k", 1, "ops", opBatch, "bmax", 3, "dfs_lo", 100, "dfs_hi", 200, "index", 1, "shards", 2)))
 			}
@@ -428,13 +430,14 @@ func init() {
 		Jobs: func(tier string) []JobSpec {
 			var js []JobSpec
 			add := func(name string, params map[string]int64) {
-				js = append(js, JobSpec{Name: name, Harness: "root", Func: "verifHarnessCrash", Params: params, Scale: scaleDF(32), ReplayRestore: true})
+				js = append(js, JobSpec{Name: name, Harness: "root", Func: "verifHarnessCrash", Params: params, Scale: scaleDF(32), ReplayRestore: true, ReplayCount: int(params["permute"]) * 30})
 			}
 			base := p("prop", 7, "pool", 2, "klen", 1, "vlens", 1, "index", 3, "shards", 1, "tailops", opMerge|opRestart, "after", 1, "crash2", 1)
 			if tier == "quick" {
 				add("k2-rot", merge(base, p("k", 2, "ops", opPut|opDelete, "dfs_lo", 60, "dfs_hi", 100)))
 				add("k3-nocrash2", merge(base, p("k", 3, "ops", opPut|opDelete, "dfs_lo", 60, "dfs_hi", 130, "crash2", 0)))
 				add("k1-batch", merge(base, p("k", 1, "ops", opBatch, "bmax", 2, "dfs_lo", 100, "dfs_hi", 160)))
+				add("k3-permute-3files", merge(base, p("k", 3, "ops", opPut|opDelete, "dfs_lo", 60, "dfs_hi", 66, "permute", 1, "crash2", 0)))
 			} else {
 				add("k3-rot", merge(base, p("k", 3, "ops", opPut|opDelete, "dfs_lo", 60, "dfs_hi", 130)))
 				add("k2-batch", merge(base, p("k", 2, "ops", opPut|opBatch, "bmax", 2, "dfs_lo", 60, "dfs_hi", 160)))
@@ -472,6 +475,7 @@ func init() {
 			add("always-std", merge(base, p("k", k+1, "ops", opPut|opDelete|opSync|opRestart, "sync", syncAlways)))
 			add("threshold-std", merge(base, p("k", k+1, "ops", opPut|opDelete, "sync", syncThreshold, "vlens", 3, "vbig", 25)))
 			add("nosync-std-batch", merge(base, p("k", k, "ops", opPut|opSync|opBatch|opRestart, "sync", syncNo, "bsync", 1, "vlens", 1)))
+			add("always-std-batch-rot", merge(base, p("k", k+1, "ops", opPut|opBatch, "sync", syncAlways, "vlens", 1, "dfs_lo", 130, "dfs_hi", 160)))
 			add("always-mmap", merge(base, p("k", k, "ops", opPut|opDelete|opSync|opRestart, "sync", syncAlways, "io", 1)))
 			add("threshold-mmap", merge(base, p("k", k, "ops", opPut|opDelete|opRestart, "sync", syncThreshold, "io", 1)))
 			if tier == "thorough" {
